@@ -391,6 +391,17 @@ class CommitGraph:
         # Positions of the second and further parents of octopus merges
         extra_edges: list[int] = []
 
+        def parent_pos(entry: CommitGraphEntry, parent: ObjectID) -> int:
+            # The format has no way to say "this parent is not in the file":
+            # a placeholder would be read back as a commit with fewer parents.
+            try:
+                return oid_to_index[parent]
+            except KeyError:
+                raise ValueError(
+                    f"parent {parent!r} of commit {entry.commit_id!r} "
+                    "is not in the commit graph"
+                ) from None
+
         for entry in sorted_entries:
             # Tree OID (20 bytes)
             commit_data += hex_to_sha(entry.tree_id)
@@ -400,20 +411,19 @@ class CommitGraph:
                 parent1_pos = GRAPH_PARENT_MISSING
                 parent2_pos = GRAPH_PARENT_MISSING
             elif len(entry.parents) == 1:
-                parent1_pos = oid_to_index.get(entry.parents[0], GRAPH_PARENT_MISSING)
+                parent1_pos = parent_pos(entry, entry.parents[0])
                 parent2_pos = GRAPH_PARENT_MISSING
             elif len(entry.parents) == 2:
-                parent1_pos = oid_to_index.get(entry.parents[0], GRAPH_PARENT_MISSING)
-                parent2_pos = oid_to_index.get(entry.parents[1], GRAPH_PARENT_MISSING)
+                parent1_pos = parent_pos(entry, entry.parents[0])
+                parent2_pos = parent_pos(entry, entry.parents[1])
             else:
                 # More than 2 parents: the second slot points into the extra
                 # edge list, which holds every parent but the first; the
                 # last one is flagged.
-                parent1_pos = oid_to_index.get(entry.parents[0], GRAPH_PARENT_MISSING)
+                parent1_pos = parent_pos(entry, entry.parents[0])
                 parent2_pos = GRAPH_EXTRA_EDGES_NEEDED | len(extra_edges)
                 extra_edges.extend(
-                    oid_to_index.get(parent, GRAPH_PARENT_MISSING)
-                    for parent in entry.parents[1:]
+                    parent_pos(entry, parent) for parent in entry.parents[1:]
                 )
                 extra_edges[-1] |= GRAPH_LAST_EDGE
 
@@ -553,6 +563,21 @@ def generate_commit_graph(
         except KeyError:
             # Commit not found, skip
             continue
+
+    # A commit can only be described together with all of its parents: the
+    # file format cannot mark a parent as unknown, and a reader would take a
+    # commit with a left-out parent for one with fewer parents. Leave such
+    # commits (and, in turn, their descendants) out; lookups for them fall
+    # back to the commit object.
+    children: dict[ObjectID, list[ObjectID]] = {}
+    for commit_id, commit_obj in commit_map.items():
+        for parent_id in commit_obj.parents:
+            children.setdefault(parent_id, []).append(commit_id)
+    left_out = [parent_id for parent_id in children if parent_id not in commit_map]
+    while left_out:
+        for commit_id in children.pop(left_out.pop(), ()):
+            if commit_map.pop(commit_id, None) is not None:
+                left_out.append(commit_id)
 
     # Calculate generation numbers using topological sort
     generation_map: dict[bytes, int] = {}
